@@ -192,13 +192,13 @@ func runC20(c *Ctx) {
 				if !ok {
 					continue
 				}
-				val := mu.Value
-				if mi, ok := val.(*ssa.MakeInterface); ok {
-					val = mi.X
-				}
-				wTypes[typeStr(val.Type())] = true
-				// constants stored into integer fields of the struct being built (through its alloc)
-				collectFieldConsts(val, fieldConsts, reach)
+				// the concrete value(s) behind the stored interface, followed through same-package constructor
+				// helpers evaluated under the same valuation
+				ifaceSources(gen, mu.Value, map[string]int64{verAtom: e.key, "p0": mode}, reach, 0, func(val ssa.Value, r map[*ssa.BasicBlock]bool) {
+					wTypes[typeStr(val.Type())] = true
+					// constants stored into integer fields of the struct being built (through its alloc)
+					collectFieldConsts(val, fieldConsts, r)
+				})
 			}
 		}
 		// reader type
@@ -420,4 +420,53 @@ func structHasFieldDeep(st *types.Struct, name string) bool {
 		}
 	}
 	return false
+}
+
+// ifaceSources visits the concrete values an interface-typed value can hold under the valuation: the operand of a
+// MakeInterface, the feasible edges of a phi, and the feasible returns of a same-package helper whose parameters
+// take the valued or constant arguments.
+func ifaceSources(fn *ssa.Function, v ssa.Value, val map[string]int64, reach map[*ssa.BasicBlock]bool, depth int, visit func(ssa.Value, map[*ssa.BasicBlock]bool)) {
+	if depth > 4 {
+		visit(v, reach)
+		return
+	}
+	switch x := v.(type) {
+	case *ssa.MakeInterface:
+		visit(x.X, reach)
+	case *ssa.Phi:
+		for i, e := range x.Edges {
+			if reach[x.Block().Preds[i]] {
+				ifaceSources(fn, e, val, reach, depth+1, visit)
+			}
+		}
+	case *ssa.Call:
+		h := samePkgHelper(fn, &x.Call)
+		if h == nil {
+			visit(v, reach)
+			return
+		}
+		hval := map[string]int64{}
+		for i, a := range x.Call.Args {
+			if cv, ok := a.(*ssa.Convert); ok {
+				a = cv.X
+			}
+			if k, ok := a.(*ssa.Const); ok && k.Value != nil {
+				if b, ok := k.Type().Underlying().(*types.Basic); ok && b.Info()&types.IsInteger != 0 {
+					hval[fmt.Sprintf("p%d", i)] = k.Int64()
+				}
+				continue
+			}
+			if xv, ok := val[desc(a)]; ok {
+				hval[fmt.Sprintf("p%d", i)] = xv
+			}
+		}
+		hreach := psReachVal(h, []*ssa.BasicBlock{h.Blocks[0]}, nil, hval)
+		for _, b := range h.Blocks {
+			if r, ok := b.Instrs[len(b.Instrs)-1].(*ssa.Return); ok && hreach[b] && len(r.Results) >= 1 {
+				ifaceSources(h, returnedValue(r, 0), hval, hreach, depth+1, visit)
+			}
+		}
+	default:
+		visit(v, reach)
+	}
 }
